@@ -68,4 +68,11 @@ inductive Reachable (s0 : St) : St → Prop
   | refl : Reachable s0 s0
   | step {s s' : St} (e : Ev) : Reachable s0 s → step s e = some s' → Reachable s0 s'
 
+/-- replay of an event list (what `wdq.accept` does): `none` as soon as an event is not enabled -/
+def replay (s : St) : List Ev → Option St
+  | [] => some s
+  | e :: es => match step s e with
+    | some s' => replay s' es
+    | none => none
+
 end Desync.WdqSys
